@@ -515,6 +515,10 @@ func c05Main(args []string) error {
 	for k := 0; k < 6; k++ {
 		res := &Result{Case: idx, Nontrivial: true}
 		la, lb := 1+rng.Intn(40), 1+rng.Intn(40)
+		if k == 4 {
+			// the evaluator's input wires straddle wire id 65536 (a page of the evaluator's wire table)
+			la, lb = 8191-rng.Intn(2), 3+rng.Intn(20)
+		}
 		src := pgUnsizedTemplates[k%len(pgUnsizedTemplates)]
 		xv, yv := []string{pgHex(rng, la)}, []string{pgHex(rng, lb)}
 		if strings.Contains(src, "a, b uint") {
